@@ -7,7 +7,7 @@
     subject of model/Heap.v and of the second part. *)
 From Coq Require Import List NArith ZArith.
 From Coq Require Import Strings.Byte.
-From GoBT Require Import lib.Bytes model.ScriptNum model.Interp model.Heap proofs.InterpTotal proofs.InterpFrame proofs.HeapRefine.
+From GoBT Require Import lib.Bytes model.ScriptNum model.Interp model.Heap proofs.InterpTotal proofs.InterpFrame proofs.HeapRefine proofs.HeapProgress.
 Import ListNotations.
 
 (** every non-signature opcode other than OP_ROLL touches only the top [arity] items of the data stack:
@@ -101,6 +101,36 @@ Theorem C08_sharing_machine_never_stuck : forall so c sc off p idx s hs,
   h_step so c sc off p idx s hs <> HStuck.
 Proof. exact h_step_not_stuck. Qed.
 Print Assumptions C08_sharing_machine_never_stuck.
+
+(** the parser cuts every data push out of the script at the place the sharing machine looks for it *)
+Theorem C08_push_data_is_a_view_of_the_script : forall eoc bs ops,
+  parse_script eoc bs = Some ops -> pushes_ok bs 0 ops.
+Proof. exact parse_script_pushes_ok. Qed.
+Print Assumptions C08_push_data_is_a_view_of_the_script.
+
+(** ... so, for WHOLE executions: without a transaction context (no signature opcode gets past the parser then) the
+    sharing machine always reaches the end, whatever the scripts and flags, P2SH included — and with the refinement
+    above this is C08 outright for every such input: the value machine's verdict and snapshots are those of a machine
+    that shares storage exactly as the Go code does and never writes to an array that exists, and the caller's two
+    script buffers are untouched *)
+Theorem C08_sharing_and_value_machines_agree_without_tx : forall so i,
+  ei_has_tx i = false \/ ei_has_prevout i = false ->
+  exists v sn h, h_engine_execute so i = HRes v sn h /\
+                 engine_execute so i = (v, map (abs_snap h) sn) /\
+                 nth 0 h [] = ei_unlock i /\ nth 1 h [] = ei_lock i.
+Proof. exact sharing_machine_total_refinement_no_tx. Qed.
+Print Assumptions C08_sharing_and_value_machines_agree_without_tx.
+
+(** ... and with a transaction context, for scripts (and, in P2SH mode, a redeem script) without signature opcodes;
+    the hypotheses are needed: a signature-opcode oracle that shrinks the stack arbitrarily does get the machine stuck *)
+Theorem C08_sharing_and_value_machines_agree : forall so i,
+  no_sigops_in (ei_unlock i) = true -> no_sigops_in (ei_lock i) = true ->
+  (engine_p2sh i = true -> redeem_sigop_free i = true) ->
+  exists v sn h, h_engine_execute so i = HRes v sn h /\
+                 engine_execute so i = (v, map (abs_snap h) sn) /\
+                 nth 0 h [] = ei_unlock i /\ nth 1 h [] = ei_lock i.
+Proof. exact sharing_machine_total_refinement. Qed.
+Print Assumptions C08_sharing_and_value_machines_agree.
 
 (** non-vacuity of the sharing statements: DUP / SPLIT / CAT / alt-stack traffic on a value pushed from the unlocking
     script runs to the end ([HRes], not stuck), the duplicate and the two halves of the split are views of the
